@@ -4,6 +4,7 @@
   behaviour to the running code).
 -/
 import Relic.Proofs.AuditRec
+import Relic.Proofs.AuditMarshal
 namespace Relic.Props.C06
 open Relic.AuditRec
 
@@ -323,10 +324,113 @@ theorem signCmd_record_names_file (cfg : Config) (m : Option SignerMod) (keyName
 example : ((signCmd exCfg (some { name := "msi", needX509 := true }) "prod" "" "/work/setup.msi" "t0" "h" (fun _ => some [])).toOption.map
     (fun r => (r.1.keyName, aget r.2 "client.filename"))) = some ("k2", some "/work/setup.msi") := by rfl
 
-/-- json.Marshal keeps the members (member level): statement not proved here for maps built by
-    arbitrary `aset` sequences (needs the no-duplicate-key invariant); `aget_insertSorted` is the
-    step lemma -/
-def marshal_keeps_members_full : Prop :=
-  ∀ (a : Attrs) (q : String), (a.map (·.1)).Nodup → aget (marshal a) q = aget a q
+/-! ### json.Marshal of the record (member level) -/
+
+/-- **marshal_keeps_members** (was `marshal_keeps_members_full`).  json.Marshal keeps every member: for an
+    attribute list without duplicate keys — a Go map; every list built from the empty one by `aset` is one,
+    `record_is_map` — looking a key up in the marshalled object gives what the map held. -/
+theorem marshal_keeps_members (a : Attrs) (q : String) (hn : (a.map (·.1)).Nodup) : aget (marshal a) q = aget a q :=
+  marshal_keeps a q hn
+
+/-- the hypothesis is needed for an association list that is not a map: with a repeated key, the first entry wins in
+    `aget`, while `insertSorted` puts the later entry in front (no such list arises from `aset`) -/
+example : aget (marshal [("k", "1"), ("k", "2")]) "k" = some "2" ∧ aget [("k", "1"), ("k", "2")] "k" = some "1" := by
+  decide
+
+/-- **marshal_sorted.**  The members come out sorted by key: never decreasing for any list, strictly increasing
+    for a map.  Together with `marshal_perm` (same entries) this is what makes the audit line deterministic
+    although Go's map iteration is not. -/
+theorem marshal_sorted (a : Attrs) :
+    (marshal a).Perm a ∧ (marshal a).Pairwise (fun x y => ¬ y.1 < x.1) ∧
+    ((a.map (·.1)).Nodup → (marshal a).Pairwise (fun x y => x.1 < y.1)) :=
+  ⟨marshal_perm a, marshal_sortedLe a, marshal_sortedK a⟩
+
+/-- **marshal_injective_on_nodup.**  On maps, the marshalled object determines the map and is determined by it:
+    two attribute lists without duplicate keys marshal to the same object iff they agree on every key — whatever
+    the order in which their entries were assigned. -/
+theorem marshal_injective_on_nodup (a b : Attrs) (ha : (a.map (·.1)).Nodup) (hb : (b.map (·.1)).Nodup) :
+    marshal a = marshal b ↔ ∀ q, aget a q = aget b q :=
+  marshal_eq_iff a b ha hb
+
+/-- the same two members assigned in either order: one audit line -/
+example : marshal (aset (aset [] "sig.type" "pe") "client.name" "x") = marshal (aset (aset [] "client.name" "x") "sig.type" "pe") ∧
+    marshal (aset (aset [] "sig.type" "pe") "client.name" "x") = [("client.name", "x"), ("sig.type", "pe")] := by decide
+
+/-- the identity part of every record is a map (no key twice) -/
+theorem recordOf_is_map (u : Used) (now host : String) : ((recordOf u now host).map (·.1)).Nodup := by
+  have nil : KeysNodup [] := by simp [KeysNodup]
+  show KeysNodup (recordOf u now host)
+  unfold recordOf auditNew setX509Cert setPgpCert
+  repeat' (first | apply aset_keysNodup | exact nil | split)
+
+/-- **record_is_map.**  The record handed to PublishAudit by the server and by the standalone command satisfies
+    the hypothesis of the three theorems above (it is built from the empty map by assignments only), whatever
+    the signer module wrote. -/
+theorem record_is_map (cfg : Config) (mods : List SignerMod) (cl : Client) (req : Request)
+    (now host : String) (sign : Used → Option (List (String × String))) (sizeIn sizePatch : String)
+    (u : Used) (a : Attrs)
+    (h : serveSign cfg mods cl req now host sign sizeIn sizePatch = .ok (u, a)) : (a.map (·.1)).Nodup := by
+  unfold serveSign at h
+  split at h
+  · cases h
+  · split at h
+    · cases h
+    · split at h
+      · cases h
+      · split at h
+        · cases h
+        · split at h
+          · cases h
+          · split at h
+            · cases h
+            · split at h
+              · cases h
+              · rename_i u' a' hi
+                split at h
+                · cases h
+                · simp only [Except.ok.injEq, Prod.mk.injEq] at h
+                  obtain ⟨rfl, rfl⟩ := h
+                  obtain ⟨_, _, _, _, _, _, ha⟩ := init_refines hi
+                  subst ha
+                  show KeysNodup _
+                  apply aset_keysNodup; apply aset_keysNodup; apply asetAll_keysNodup
+                  unfold auditContext
+                  split
+                  · repeat apply aset_keysNodup
+                    exact recordOf_is_map u' now host
+                  · repeat apply aset_keysNodup
+                    exact recordOf_is_map u' now host
+
+theorem signCmd_record_is_map (cfg : Config) (m : Option SignerMod) (keyName digest argFile now host : String)
+    (sign : Used → Option (List (String × String))) (u : Used) (a : Attrs)
+    (h : signCmd cfg m keyName digest argFile now host sign = .ok (u, a)) : (a.map (·.1)).Nodup := by
+  unfold signCmd at h
+  split at h
+  · cases h
+  · split at h
+    · cases h
+    · split at h
+      · cases h
+      · split at h
+        · cases h
+        · rename_i u' a' hi
+          simp only at h
+          split at h
+          · cases h
+          · simp only [Except.ok.injEq, Prod.mk.injEq] at h
+            obtain ⟨rfl, rfl⟩ := h
+            obtain ⟨_, _, _, _, _, _, ha⟩ := init_refines hi
+            subst ha
+            show KeysNodup _
+            apply asetAll_keysNodup; apply aset_keysNodup
+            exact recordOf_is_map u' now host
+
+/-- the line written for a record looks every identity attribute up as the record holds it -/
+theorem marshal_record_names (cfg : Config) (mods : List SignerMod) (cl : Client) (req : Request)
+    (now host : String) (sign : Used → Option (List (String × String))) (sizeIn sizePatch : String)
+    (u : Used) (a : Attrs)
+    (h : serveSign cfg mods cl req now host sign sizeIn sizePatch = .ok (u, a)) (q : String) :
+    aget (marshal a) q = aget a q :=
+  marshal_keeps_members a q (record_is_map cfg mods cl req now host sign sizeIn sizePatch u a h)
 
 end Relic.Props.C06
